@@ -905,12 +905,15 @@ pub fn real_timed_accept_under_signals(r: &mut Report) {
         };
         r.sample(json!({"real": "accept_with_timeout(100 ms) under a 10 ms SIGALRM timer", "result": what, "ms": ms, "signals": ticks}));
         let timeout = matches!(res, Ok(Err(tiny_std::Error::Timeout)));
-        if timeout && (100..=1000).contains(&ms) {
-            r.outcome("real-timed-accept-under-signals:timeout-within-bounds");
+        // judged by the safety net, not by wall time (a stalled machine stretches wall time but cannot make 150 timer
+        // expirations arrive inside a wait that keeps to its limit: pending SIGALRMs coalesce)
+        let needed_safety_net = ticks >= 150;
+        if timeout && ms >= 100 && !needed_safety_net {
+            r.outcome(if ms <= 1000 { "real-timed-accept-under-signals:timeout-within-bounds" } else { "real-timed-accept-under-signals:timeout-late-on-a-stalled-machine(not judged)" });
         } else if timeout && ms < 100 {
             r.outcome("real-timed-accept-under-signals:timeout-early");
             r.violation("C16:UnixListener::accept_with_timeout:timeout-early", format!("REAL KERNEL (sampled timing): Timeout after {ms} ms with a limit of 100 ms ({ticks} signals)"), rep);
-        } else if ms > 1000 {
+        } else if needed_safety_net {
             r.outcome("real-timed-accept-under-signals:limit-not-kept");
             r.violation(
                 "C16:UnixListener::accept_with_timeout:timeout-restarted-after-EINTR",
@@ -971,7 +974,7 @@ pub fn phase(args: &Args) -> Report {
               not ready with zero time-out, 0 at/after the time-out, EINTR with the remaining time written back, readiness followed by progress; accept4: EAGAIN / descriptor; \
               unix connect: 0 / ECONNREFUSED / EAGAIN on a full backlog then 0; TCP connect: EINPROGRESS then POLLOUT then SO_ERROR 0 and second connect 0, ECONNREFUSED, \
               EALREADY while in progress; blocking-mode read / accept4 observed asleep in the kernel for 50 ms through /proc/self/task/<tid>/{syscall,stat}) is driven on the REAL kernel with non-blocking socket pairs and loopback TCP through libc; one evaluation = one kind; plus one real-kernel \
-              run of TcpStreamInProgress::connect_blocking on a connection that is still in progress and one of UnixStream::connect against a full accept queue whose owner accepts 200 ms later; one (SAMPLED timing) accept_with_timeout(100 ms) under a 10 ms SIGALRM interval timer that must report Timeout within [100 ms, 1 s]; plus (SAMPLED timing, 500 ms deadline) for every accept / connect variant of both families \
+              run of TcpStreamInProgress::connect_blocking on a connection that is still in progress and one of UnixStream::connect against a full accept queue whose owner accepts 200 ms later; one (SAMPLED timing) accept_with_timeout(100 ms) under a 10 ms SIGALRM interval timer that must report Timeout no earlier than 100 ms and without needing the timer's safety net (150 expirations); plus (SAMPLED timing, 500 ms deadline) for every accept / connect variant of both families \
               x {no child, a real fork+exec of this executable in sleep mode between obtaining and dropping the stream}: the libc peer's read must report end-of-stream after the drop"
         .into();
     r.bound("kinds", r.evaluations);
